@@ -1,7 +1,8 @@
 PROP = dict(
     module="M3d.Props.C14",
     corr=dict(quick=400, thorough=2500),
-    gen=[],
+    gen=["Kernels"],
+    tie_modules=["M3d.Lemmas.KernelsTieTriangulate"],
     corr_theorems=(
         "M3d.C14.triangulation_certificate_sound (+ cert_area_redundant, triangulation_winding_sum, "
         "triangle_winding_indicator, triangulation_cover_partial): the driver "
@@ -10,19 +11,27 @@ PROP = dict(
         "2^k times the written coordinates) the checker is run on the written coordinates and the verdict transferred by "
         "M3d.C14.cert_scale_invariant (certOk/edgesOkG invariant under scaling, areas scale by k^2; "
         "cert_similarity_invariant: under every rotation+scaling+translation), the printed area is computed on the "
-        "scaled coordinates; inputs scaled by a non-dyadic factor are carried exactly (big integers over 2^m) and "
+        "scaled coordinates; for op lines with a far placement `O ox oy` (the Go code was given 2^k·(p + (ox,oy)), exact "
+        "in float64) the checker is likewise run on the written points and the verdict, the orientation flag and the "
+        "area transferred by M3d.C14.cert_placement_invariant (certOk/edgesOkG/isClockwise invariant under "
+        "translate-then-scale, shoelace areas independent of the translation); "
+        "inputs scaled by a non-dyadic factor are carried exactly (big integers over 2^m) and "
         "checked directly; profile: profile_volume_eq_area_times_height + "
         "profile_mesh_edge_manifold + profile_mesh_manifold_partial (Surface.closedManifold_iff) on the real ProfileMesh soup, which must also equal "
-        "the model profileSoup of its caps; mono/vtype/splits/earseq compare the faithful models monoTris / vertexType / "
-        "sweepSplits / triangulate (monotone_stack_area, sweep_types_turn, ear_clip_area, ear_clip_orientation are about "
-        "these) with the real internals exactly"),
+        "the model profileSoup of its caps, every vertex at exactly minZ or maxZ (profile_vertices_on_caps; the two "
+        "float64 arguments are carried exactly, `ZQ`); mono/vtype/splits/earseq compare the faithful models monoTris / vertexType / "
+        "sweepSplits / triangulate (monotone_stack_area, sweep_types_turn, ear_clip_area, ear_clip_orientation, "
+        "triangulate_translation_equivariant are about these) with the real internals exactly, also far from the origin; "
+        "tie module M3d.Lemmas.KernelsTieTriangulate (blocks_tie, projectFace_tie, lift_tie) re-proves against the "
+        "regenerated Matrix2.Inverse/MulColumn/Det, Coord.Sub, Coord3D.Dot/Sub, XYZ that the models compute the same"),
     rule=(
         "random simple lattice polygons with dyadic coordinates (den 1..16): convex hulls, star-shaped, polygonal and "
         "rectilinear spirals, rectangular/triangular combs, staircases, 2-opt untangled random polygons (many reflex "
         "vertices), edge-splitting growth, near-degenerate slivers (|orient| = 1 lattice unit), long colinear runs "
-        "(subdivided edges), x-monotone polygons, random quadrilaterals and pentagons (convex and concave darts; a "
-        "quarter of the face/off cases); ear: every rotation of the start vertex (sampled above 10 vertices) x "
-        "both vertex orders x one random rigid lattice map (rotations by 90 degrees, reflections, translations); "
+        "(subdivided edges), x-monotone polygons, random quadrilaterals and pentagons (convex and concave; a "
+        "quarter of the face/off cases) and explicit darts (narrow and wide arrow heads); ear: every rotation of the start vertex (sampled above 10 vertices) x "
+        "both vertex orders x one random rigid lattice map (rotations by 90 degrees and by the Pythagorean angles "
+        "(3,4,5), (5,12,13) composed with the scaling the lattice absorbs, reflections, translations); "
         "mesh/profile: regions with up to 6 loops, holes and nested islands, several outer loops, documented orientation "
         "(outer clockwise, holes counter-clockwise), random rigid map; single/splits/vtype/mono: the un-rotated "
         "internals on inputs sheared to pairwise distinct x; face: 2-D polygons embedded by exact lattice-affine maps "
@@ -35,6 +44,17 @@ PROP = dict(
         "the product is rounded, so these inputs are first put in general position (lattice x256, every vertex "
         "jittered by up to 8, re-validated, every triple of vertices with |sin| > 1e-6 at each corner, far above "
         "removeColinearPoints' documented 1e-8) and the op line carries the rounded float64 coordinates exactly. "
+        "Half of the non-dyadic placements are additionally rotated by an arbitrary float64 angle before the factor "
+        "is applied (rounded coordinates carried exactly). "
+        "RIGID PLACEMENT FAR FROM THE ORIGIN: every ear polygon is triangulated a third time translated by a "
+        "whole-number vector with |ox|,|oy| ~ 2^31..2^44 (offset/size 1e7..1e12; random mantissas and signs, round "
+        "values such as 3e9, one component only one time in six; a quarter also in a dyadic unit), a third of the "
+        "earseq and face/off cases (3-D offsets), a quarter of mesh/profile and two ninths of "
+        "single/mono/vtype/splits (2^31..2^36 there, because misalignMesh rotates absolute coordinates); all sums "
+        "are exact in float64 (re-verified per coordinate with big.Rat), so the input is exactly the translated "
+        "polygon. PROFILE Z RANGE: a third lattice values, a third decimals as typed (-0.7, 0.1, -12.5), a third "
+        "arbitrary float64 with full mantissas, half of the latter two mirrored to lie mostly below zero (more than "
+        "a third of all ranges have minZ+(maxZ-minZ) != maxZ in float64); the two arguments are carried exactly. "
         "Distinct = distinct op line (input + returned triangles)"),
     trusted=[
         "modelled, not verified: floating point. Every decision the Go code takes through clockwiseAngle (atan2/sin) is "
@@ -46,6 +66,12 @@ PROP = dict(
         "tolerance removes them and the area is then only exact up to that tolerance (by design of the code): such "
         "inputs are not generated (dyadic scaling preserves angles exactly; non-dyadic scaling is applied to inputs "
         "in certified general position only)",
+        "far placements: the translated coordinates are exact float64 values and Triangulate / TriangulateFace / the "
+        "stack algorithm only look at coordinate differences (exact), so every offset is a legitimate input there; "
+        "TriangulateMesh (and ProfileMesh through it) first rotates the ABSOLUTE coordinates (misalignMesh), which "
+        "rounds them to ~offset*2^-53: offsets for mesh/profile/single/mono/vtype/splits are limited to 2^36 "
+        "and, per region, to 2^b with 64*2^(b-52) <= the region's clearance (smallest distance between a vertex and "
+        "an edge it is not an end point of); larger offsets are not exercised for these kinds",
         "not mechanised: the polygonal Jordan theorem for the INPUT boundary (a simple, correctly oriented region "
         "boundary has winding number -1 at interior points, 0 outside). Everything about the OUTPUT is proved: "
         "triangulation_cover_partial shows that every point off the triangle edges is contained in exactly "
@@ -78,7 +104,8 @@ PROP = dict(
     ],
     level_text=(
         "Machine-checked (Lean 4, all linear ordered fields): the certificate is invariant under every similarity "
-        "(rotation, translation, change of the unit of length: cert_similarity_invariant, cert_scale_invariant), every "
+        "(rotation, translation, change of the unit of length: cert_similarity_invariant, cert_scale_invariant, "
+        "cert_placement_invariant), every "
         "point off the triangle edges lies in exactly |winding number of the boundary| triangles "
         "(triangulation_cover_partial, triangle_winding_indicator, triangulation_winding_sum); ear clipping with ANY choice of ears preserves the "
         "shoelace area, emits n-2 triangles on input vertices (shoelace_fan, ear_clip_area), the ear test only accepts "
@@ -92,7 +119,11 @@ PROP = dict(
         "interior edges with boundary exactly the input boundary incl. T-junction refinement, chain-level boundary "
         "equation, exact area). Tie: the checker is executed at Rat, with no tolerance, on the real outputs of "
         "Triangulate / TriangulateMesh / triangulateSingleMesh / TriangulateFace / ReadOFF / ProfileMesh for generated "
-        "inputs at unit scale and in units from 2^-30 to 2^30 and non-dyadic factors (1e-6 .. 1e5); "
+        "inputs at unit scale, in units from 2^-30 to 2^30 and non-dyadic factors (1e-6 .. 1e5), and translated up to "
+        "1e12 times their size away from the origin (cert_placement_invariant; the faithful model of Triangulate "
+        "commutes with translation: triangulate_translation_equivariant), ProfileMesh over arbitrary float64 "
+        "Z ranges (profile_vertices_on_caps); the arithmetic kernels of the ear test, of TriangulateFace's chart and of "
+        "ProfileMesh's corners are regenerated from the source and proved equal to the model's (KernelsTieTriangulate); "
         "the models of Triangulate, the stack algorithm, VertexType and the sweep's helper bookkeeping are compared "
         "with the real internals exactly."),
     level_note=(
